@@ -1157,3 +1157,409 @@ Proof.
     replace (flat_map ev_call (x_events (exec U c tr))) with (flat_map ev_call (x_events (exec U c tr)) ++ []) by apply app_nil_r.
     apply sublist_app; [exact IH|]. apply sub_nil.
 Qed.
+
+(* ================================================================== *)
+(* C17 at protocol level: Done, pending and later API calls, Close       *)
+
+Definition ends_connection (l : label) : Prop :=
+  l = RouterMsg RGoodbye \/ l = RouterMsg RAbort \/ l = TransportEnd.
+
+Lemma disconnect_connected : forall s s' outs,
+  disconnect s = (s', outs) -> s_connected s = true ->
+  s_connected s' = false /\ In ODone outs /\ s_closer s' = None /\
+  (forall i, In i (s_invs s') -> i_outer i = false) /\
+  (forall k w, In (k, w) (s_awaiting s') -> exists e, w_phase w = WCancelWait e) /\
+  (forall o dl, s_closer s = Some (o, dl) -> In (OCloseRet o false) outs /\ s_peer_closed s' = true).
+Proof.
+  intros s s' outs H Hc. unfold disconnect in H. rewrite Hc in H.
+  destruct (disconnect_waiters (s_awaiting s)) as [[aw o1] os1] eqn:E. simpl in H.
+  assert (INV : forall l i, In i (inv_gc (map inv_disconnect l)) -> i_outer i = false).
+  { intros l i Hi. unfold inv_gc in Hi. apply filter_In in Hi. destruct Hi as [Hi _].
+    apply in_map_iff in Hi. destruct Hi as [i0 [<- _]]. reflexivity. }
+  assert (AW : forall k w, In (k, w) aw -> exists e, w_phase w = WCancelWait e).
+  { intros k w Hi. destruct (disconnect_waiters_sub _ _ _ _ _ _ E Hi) as [_ X]. exact X. }
+  destruct (s_closer s) as [[oc dl]|] eqn:Ecl; simpl in H; inversion H; subst; clear H; simpl.
+  - split; [reflexivity|]. split; [left; reflexivity|]. split; [reflexivity|].
+    split; [intros i Hi; eapply INV; eauto|]. split; [exact AW|].
+    intros o9 dl9 X. inversion X; subst. split; [|reflexivity].
+    right. apply in_or_app. right. left. reflexivity.
+  - split; [reflexivity|]. split; [left; reflexivity|]. split; [exact Ecl|].
+    split; [intros i Hi; eapply INV; eauto|]. split; [exact AW|].
+    intros; discriminate.
+Qed.
+
+(* GOODBYE, ABORT and the end of the transport all stop the client and signal Done *)
+Theorem done_on_end_proof : forall U s l,
+  s_connected s = true -> ends_connection l ->
+  exists s' outs, step U s l = Ok s' outs /\ s_connected s' = false /\ In ODone outs.
+Proof.
+  intros U s l Hc [H|[H|H]]; subst l; simpl; unfold step_router; rewrite ?Hc; simpl;
+    destruct (disconnect s) as [s1 o1] eqn:E;
+    destruct (disconnect_connected _ _ _ E Hc) as (A & B & _);
+    exists s1, o1; auto.
+Qed.
+
+Fixpoint count_done (outs : list out) : nat :=
+  match outs with [] => 0 | ODone :: r => S (count_done r) | _ :: r => count_done r end.
+
+Fixpoint count_done_ev (evs : list event) : nat :=
+  match evs with [] => 0 | EOut ODone :: r => S (count_done_ev r) | _ :: r => count_done_ev r end.
+
+Lemma count_done_waiters : forall l l' outs os, disconnect_waiters l = (l', outs, os) -> count_done outs = 0%nat.
+Proof.
+  induction l as [|[k w] r IH]; simpl; intros l' outs os H.
+  - inversion H; subst. reflexivity.
+  - destruct (disconnect_waiters r) as [[l1 o1] os1] eqn:E.
+    destruct (w_phase w); inversion H; subst; simpl; eapply IH; eauto.
+Qed.
+
+Lemma count_done_app : forall a b, count_done (a ++ b) = (count_done a + count_done b)%nat.
+Proof. induction a as [|x r IH]; simpl; intro b; auto. destruct x; simpl; auto. Qed.
+
+Lemma disconnect_count_done : forall s s' outs, disconnect s = (s', outs) ->
+  count_done outs = (if s_connected s then 1 else 0)%nat /\ s_connected s' = false.
+Proof.
+  intros s s' outs H. unfold disconnect in H. destruct (s_connected s) eqn:Hc.
+  - destruct (disconnect_waiters (s_awaiting s)) as [[aw o1] os1] eqn:E. simpl in H.
+    pose proof (count_done_waiters _ _ _ _ E) as C.
+    destruct (s_closer s) as [[oc dl]|]; simpl in H; inversion H; subst; simpl.
+    + rewrite count_done_app, C. simpl. auto.
+    + rewrite C. auto.
+  - inversion H; subst. auto.
+Qed.
+
+(* Done is signalled exactly when the client stops being connected, and the
+   client never becomes connected again. *)
+Theorem done_step_proof : forall U s l s' outs,
+  step U s l = Ok s' outs ->
+  count_done outs = (if s_connected s && negb (s_connected s') then 1 else 0)%nat /\
+  (s_connected s = false -> s_connected s' = false).
+Proof.
+  intros U s l s' outs H.
+  assert (SAME : forall s2 o2, s_connected s2 = s_connected s -> count_done o2 = 0%nat ->
+            count_done o2 = (if s_connected s && negb (s_connected s2) then 1 else 0)%nat /\
+            (s_connected s = false -> s_connected s2 = false)).
+  { intros s2 o2 E C. rewrite E, C. destruct (s_connected s); simpl; auto. }
+  assert (DISC : forall s2 o2, disconnect s = (s2, o2) ->
+            count_done o2 = (if s_connected s && negb (s_connected s2) then 1 else 0)%nat /\
+            (s_connected s = false -> s_connected s2 = false)).
+  { intros s2 o2 E. destruct (disconnect_count_done _ _ _ E) as [A B]. rewrite A, B.
+    destruct (s_connected s); simpl; auto. }
+  pose (P := fun (s2 : state) (o2 : list out) =>
+            count_done o2 = (if s_connected s && negb (s_connected s2) then 1 else 0)%nat /\
+            (s_connected s = false -> s_connected s2 = false)).
+  change (P s' outs). change (forall s2 o2, s_connected s2 = s_connected s -> count_done o2 = 0%nat -> P s2 o2) in SAME.
+  change (forall s2 o2, disconnect s = (s2, o2) -> P s2 o2) in DISC.
+  destruct l; simpl in H.
+  - revert H. repeat break_match; intro H; inversion H; subst. apply SAME; simpl; first [reflexivity|assumption|congruence].
+  - unfold step_api_start in H. revert H.
+    repeat break_match; intro H; inversion H; subst; apply SAME; simpl; first [reflexivity|assumption|congruence].
+  - unfold step_router in H. destruct (negb (s_connected s)); [discriminate|].
+    destruct m; simpl in H;
+      try (unfold step_reply in H; revert H; repeat break_match; intro H; inversion H; subst; apply SAME; simpl; first [reflexivity|assumption|congruence]).
+    + unfold step_event in H. revert H. repeat break_match; intro H; inversion H; subst; apply SAME; simpl; first [reflexivity|assumption|congruence].
+    + unfold step_invocation in H. revert H. repeat break_match; intro H; inversion H; subst; apply SAME;
+        simpl; rewrite ?update_last_recv_conn; first [reflexivity|assumption|congruence].
+    + unfold step_interrupt, cancel_inv in H. revert H. repeat break_match; intro H; inversion H; subst; apply SAME;
+        simpl; rewrite ?update_last_recv_conn; first [reflexivity|assumption|congruence].
+    + destruct (disconnect s) eqn:E. inversion H; subst. apply DISC; first [exact E|reflexivity].
+    + destruct (disconnect s) eqn:E. inversion H; subst. apply DISC; first [exact E|reflexivity].
+  - unfold step_timer in H. revert H. repeat break_match; intro H; inversion H; subst; apply SAME; simpl; first [reflexivity|assumption|congruence].
+  - unfold step_ctx in H. revert H. repeat break_match; intro H; inversion H; subst; apply SAME; simpl; first [reflexivity|assumption|congruence].
+  - unfold step_ctx in H. revert H. repeat break_match; intro H; inversion H; subst; apply SAME; simpl; first [reflexivity|assumption|congruence].
+  - unfold step_api_finish in H.
+    destruct (fin_of (s_finishing s) o); [|discriminate].
+    destruct (f_op f); destruct (f_msg f); try discriminate;
+      revert H; repeat break_match; intro H; inversion H; subst;
+      try (apply SAME; simpl; first [reflexivity|assumption|congruence]);
+      match goal with E : disconnect ?x = _ |- _ =>
+        destruct (disconnect_count_done _ _ _ E) as [A B]; simpl in A; subst P; simpl; rewrite A, B;
+        destruct (s_connected s); simpl; auto end.
+  - unfold step_inv_start in H. revert H. repeat break_match; intro H; inversion H; subst; apply SAME; simpl; first [reflexivity|assumption|congruence].
+  - unfold step_inv_exit in H. revert H. repeat break_match; intro H; inversion H; subst; apply SAME; simpl; first [reflexivity|assumption|congruence].
+  - unfold step_handler_return in H. revert H. repeat break_match; intro H; inversion H; subst; apply SAME; simpl; first [reflexivity|assumption|congruence].
+  - unfold step_send_prog in H. revert H. repeat break_match; intro H; inversion H; subst; apply SAME; simpl; first [reflexivity|assumption|congruence].
+  - unfold step_inv_timeout, cancel_inv in H. revert H. repeat break_match; intro H; inversion H; subst; apply SAME; simpl; first [reflexivity|assumption|congruence].
+  - unfold step_chunk in H. revert H. repeat break_match; intro H; inversion H; subst; apply SAME; simpl; first [reflexivity|assumption|congruence].
+  - unfold step_chunk in H. revert H. repeat break_match; intro H; inversion H; subst; apply SAME; simpl; first [reflexivity|assumption|congruence].
+  - unfold step_close_start, finish_close in H. revert H. repeat break_match; intro H; inversion H; subst; apply SAME; simpl; first [reflexivity|assumption|congruence].
+  - unfold step_close_timer in H. revert H. repeat break_match; try discriminate. intro H. inversion H; subst.
+    apply DISC; first [assumption|reflexivity].
+  - revert H. repeat break_match; try discriminate. intro H. inversion H; subst. apply DISC; first [assumption|reflexivity].
+Qed.
+
+Lemma count_done_ev_app : forall a b, count_done_ev (a ++ b) = (count_done_ev a + count_done_ev b)%nat.
+Proof.
+  induction a as [|x r IH]; simpl; intro b; auto. destruct x as [l|o]; auto. destruct o; simpl; auto.
+Qed.
+
+Lemma count_done_ev_outs : forall outs, count_done_ev (map EOut outs) = count_done outs.
+Proof. induction outs as [|x r IH]; simpl; auto. destruct x; simpl; auto. Qed.
+
+(* Over every execution: Done has been signalled exactly once if the client
+   is no longer connected, and not at all while it is. *)
+Theorem done_once_proof : forall U c tr,
+  count_done_ev (x_events (exec U c tr)) =
+    (if s_connected (x_state (exec U c tr)) then 0 else 1)%nat.
+Proof.
+  intros U c tr. induction tr as [|l tr IH] using rev_ind; [reflexivity|].
+  rewrite exec_snoc. unfold exec_step.
+  destruct (x_panic (exec U c tr)); [exact IH|].
+  destruct (step U (x_state (exec U c tr)) l) as [s' outs| |site] eqn:E; simpl; [|exact IH|].
+  - rewrite count_done_ev_app. simpl. rewrite count_done_ev_outs, IH.
+    destruct (done_step_proof _ _ _ _ _ E) as [A B]. rewrite A.
+    destruct (s_connected (x_state (exec U c tr))) eqn:C1; simpl.
+    + destruct (s_connected s'); reflexivity.
+    + rewrite (B eq_refl). reflexivity.
+  - rewrite count_done_ev_app. simpl. rewrite IH. lia.
+Qed.
+
+(* ---- pending API calls ------------------------------------------------ *)
+
+Definition waiter_ok (s : state) (w : waiter) : Prop :=
+  match w_phase w with
+  | WWaiting => s_connected s = true /\ (timed (w_op w) = true -> exists dl, w_timer w = Some dl)
+  | WCancelWait _ => exists dl, w_timer w = Some dl
+  end.
+
+Definition J (s : state) : Prop := forall k w, In (k, w) (s_awaiting s) -> waiter_ok s w.
+
+Lemma J_same : forall s s', J s -> s_awaiting s' = s_awaiting s -> s_connected s' = s_connected s -> J s'.
+Proof.
+  intros s s' H E1 E2 k w Hi. rewrite E1 in Hi. specialize (H k w Hi).
+  unfold waiter_ok in *. rewrite E2. exact H.
+Qed.
+
+Lemma J_remove : forall s k, J s -> J (set_awaiting s (aremove (s_awaiting s) k)).
+Proof.
+  intros s k H k' w Hi. simpl in Hi. apply aremove_in in Hi. destruct Hi as [Hi _].
+  specialize (H k' w Hi). exact H.
+Qed.
+
+Lemma J_disconnect : forall s s' outs, J s -> disconnect s = (s', outs) -> J s'.
+Proof.
+  intros s s' outs H E. destruct (s_connected s) eqn:Hc.
+  - destruct (disconnect_connected _ _ _ E Hc) as (_ & _ & _ & _ & AW & _).
+    intros k w Hi. destruct (AW k w Hi) as [e He]. unfold waiter_ok. rewrite He.
+    (* the waiter was there before, with its timer *)
+    unfold disconnect in E. rewrite Hc in E.
+    destruct (disconnect_waiters (s_awaiting s)) as [[aw o1] os1] eqn:E1. simpl in E.
+    assert (Hin : In (k, w) aw).
+    { destruct (s_closer s) as [[oc dl]|]; simpl in E; inversion E; subst; exact Hi. }
+    destruct (disconnect_waiters_sub _ _ _ _ _ _ E1 Hin) as [Hi0 _].
+    specialize (H k w Hi0). unfold waiter_ok in H. rewrite He in H. exact H.
+  - unfold disconnect in E. rewrite Hc in E. inversion E; subst. exact H.
+Qed.
+
+Lemma J_step : forall U s l s' outs, J s -> step U s l = Ok s' outs -> J s'.
+Proof.
+  intros U s l s' outs HJ H. destruct l; simpl in H.
+  - revert H. repeat break_match; intro H; inversion H; subst. eapply J_same; eauto.
+  - (* ApiStart *)
+    unfold step_api_start in H.
+    assert (ENQ : forall s0 x, J s0 -> s_connected s0 = true ->
+       (let nid := s_next s0 + 1 in
+        if negb (rid =? nid) then Invalid else
+        let s1 := set_next s0 nid in
+        let s2 := set_busy s1 (o :: s_busy s1) in
+        let s3 := set_awaiting s2 (aset (s_awaiting s2) nid (new_waiter s2 o p)) in
+        let s4 := match p with
+                  | OpCallProg pr hp true _ => set_chunkers s3 ((o, (nid, pr, hp)) :: s_chunkers s3)
+                  | _ => s3 end in
+        Ok s4 [OSend (request_msg p nid x)]) = Ok s' outs -> J s').
+    { intros s0 x J0 C0 H0. cbv zeta in H0. destruct (negb (rid =? s_next s0 + 1)); [discriminate|].
+      assert (J3 : J (set_awaiting (set_busy (set_next s0 (s_next s0 + 1)) (o :: s_busy s0))
+                         (aset (s_awaiting s0) (s_next s0 + 1) (new_waiter (set_busy (set_next s0 (s_next s0 + 1)) (o :: s_busy s0)) o p)))).
+      { intros k w [Hi|Hi].
+        - inversion Hi; subst. unfold waiter_ok. simpl. split; [exact C0|].
+          intro Ht. rewrite Ht. eauto.
+        - apply aremove_in in Hi. destruct Hi as [Hi _]. specialize (J0 k w Hi).
+          unfold waiter_ok in *. simpl. exact J0. }
+      destruct p; inversion H0; subst; try exact J3.
+      destruct more; inversion H0; subst; (eapply J_same; [exact J3|reflexivity|reflexivity]). }
+    destruct (mem_nat o (s_busy s)); [discriminate|].
+    assert (PLAIN : (if s_connected s
+                     then (let nid := s_next s + 1 in
+                           if negb (rid =? nid) then Invalid else
+                           let s1 := set_next s nid in
+                           let s2 := set_busy s1 (o :: s_busy s1) in
+                           let s3 := set_awaiting s2 (aset (s_awaiting s2) nid (new_waiter s2 o p)) in
+                           let s4 := match p with
+                                     | OpCallProg pr hp true _ => set_chunkers s3 ((o, (nid, pr, hp)) :: s_chunkers s3)
+                                     | _ => s3 end in
+                           Ok s4 [OSend (request_msg p nid 0)])
+                     else if rid =? 0 then Ok s [OReturn o 0 RetNotConn] else Invalid) = Ok s' outs -> J s').
+    { intro HP. destruct (s_connected s) eqn:Hc; [eapply (ENQ s 0 HJ Hc); exact HP|].
+      destruct (rid =? 0); inversion HP; subst; exact HJ. }
+    destruct p; try (apply PLAIN; exact H).
+    + destruct (alookup (s_topic_sub s) topic) as [sub|].
+      * cbv zeta in H.
+        assert (J1 : J (set_subs s (aremove (s_ehandlers s) sub) (aremove (s_topic_sub s) topic))) by (eapply J_same; eauto).
+        destruct (s_connected (set_subs s (aremove (s_ehandlers s) sub) (aremove (s_topic_sub s) topic))) eqn:Hc.
+        -- eapply (ENQ _ sub J1 Hc). exact H.
+        -- destruct (rid =? 0); inversion H; subst. exact J1.
+      * destruct (rid =? 0); inversion H; subst. exact HJ.
+    + destruct (alookup (s_proc_reg s) proc) as [reg|].
+      * cbv zeta in H.
+        assert (J1 : J (set_regs s (aremove (s_ihandlers s) reg) (aremove (s_proc_reg s) proc))) by (eapply J_same; eauto).
+        destruct (s_connected (set_regs s (aremove (s_ihandlers s) reg) (aremove (s_proc_reg s) proc))) eqn:Hc.
+        -- eapply (ENQ _ reg J1 Hc). exact H.
+        -- destruct (rid =? 0); inversion H; subst. exact J1.
+      * destruct (rid =? 0); inversion H; subst. exact HJ.
+    + destruct ack; [apply PLAIN; exact H|].
+      destruct (s_connected s).
+      * cbv zeta in H. destruct (negb (rid =? s_next s + 1)); inversion H; subst. eapply J_same; eauto.
+      * destruct (rid =? 0); inversion H; subst. exact HJ.
+    + destruct (s_connected s) eqn:Ec.
+      * destruct (cfg_progcall (s_cfg s)).
+        -- apply PLAIN. exact H.
+        -- destruct (rid =? 0); inversion H; subst. exact HJ.
+      * destruct (rid =? 0); inversion H; subst. exact HJ.
+    + destruct (s_connected s).
+      * cbv zeta in H. destruct (negb (rid =? s_next s + 1)); inversion H; subst. eapply J_same; eauto.
+      * destruct (rid =? 0); inversion H; subst. exact HJ.
+  - (* RouterMsg *)
+    unfold step_router in H. destruct (negb (s_connected s)); [discriminate|].
+    assert (R : forall rq, step_reply s rq m = Ok s' outs -> J s').
+    { intros rq Hs. unfold step_reply in Hs.
+      destruct (alookup (s_awaiting s) rq) as [w|] eqn:Ew; [|inversion Hs; subst; exact HJ].
+      pose proof (J_remove s rq HJ) as J1.
+      revert Hs. repeat break_match; intro Hs; inversion Hs; subst; try exact HJ;
+        (eapply J_same; [exact J1|reflexivity|reflexivity]). }
+    destruct m; simpl in H; try (eapply R; eauto; fail).
+    + unfold step_event in H. revert H. repeat break_match; intro H; inversion H; subst; exact HJ.
+    + unfold step_invocation in H. revert H. unfold update_last_recv.
+      repeat break_match; intro H; inversion H; subst; try exact HJ; (eapply J_same; [exact HJ|reflexivity|reflexivity]).
+    + unfold step_interrupt, cancel_inv, update_last_recv in H. revert H.
+      repeat break_match; intro H; inversion H; subst; try exact HJ; (eapply J_same; [exact HJ|reflexivity|reflexivity]).
+    + destruct (disconnect s) eqn:E. inversion H; subst. eapply J_disconnect; eauto.
+    + destruct (disconnect s) eqn:E. inversion H; subst. eapply J_disconnect; eauto.
+    + inversion H; subst. exact HJ.
+  - unfold step_timer in H. revert H. repeat break_match; intro H; inversion H; subst.
+    eapply J_same; [apply (J_remove s i HJ)|reflexivity|reflexivity].
+  - unfold step_ctx in H. revert H. repeat break_match; intro H; inversion H; subst.
+    intros k w' [Hk|Hk].
+    + inversion Hk; subst. unfold waiter_ok. simpl. eauto.
+    + apply aremove_in in Hk. destruct Hk as [Hk _]. specialize (HJ k w' Hk). exact HJ.
+  - unfold step_ctx in H. revert H. repeat break_match; intro H; inversion H; subst.
+    intros k w' [Hk|Hk].
+    + inversion Hk; subst. unfold waiter_ok. simpl. eauto.
+    + apply aremove_in in Hk. destruct Hk as [Hk _]. specialize (HJ k w' Hk). exact HJ.
+  - unfold step_api_finish in H.
+    destruct (fin_of (s_finishing s) o) as [f|]; [|discriminate].
+    assert (J1 : J (unbusy (set_finishing s (fin_remove (s_finishing s) o)) o)) by (eapply J_same; eauto).
+    destruct (f_op f); destruct (f_msg f); try discriminate;
+      revert H; repeat break_match; intro H; inversion H; subst;
+      try exact J1;
+      try (eapply J_same; [exact J1|reflexivity|reflexivity]);
+      try (eapply J_disconnect; eauto).
+  - unfold step_inv_start in H. revert H. repeat break_match; intro H; inversion H; subst; eapply J_same; eauto.
+  - unfold step_inv_exit in H. revert H. repeat break_match; intro H; inversion H; subst; eapply J_same; eauto.
+  - unfold step_handler_return in H. revert H. repeat break_match; intro H; inversion H; subst; eapply J_same; eauto.
+  - unfold step_send_prog in H. revert H. repeat break_match; intro H; inversion H; subst; exact HJ.
+  - unfold step_inv_timeout, cancel_inv in H. revert H. repeat break_match; intro H; inversion H; subst; eapply J_same; eauto.
+  - unfold step_chunk in H. revert H. repeat break_match; intro H; inversion H; subst; try exact HJ; eapply J_same; eauto.
+  - unfold step_chunk in H. revert H. repeat break_match; intro H; inversion H; subst; try exact HJ; eapply J_same; eauto.
+  - unfold step_close_start, finish_close in H. revert H. repeat break_match; intro H; inversion H; subst;
+      try exact HJ; eapply J_same; eauto.
+  - unfold step_close_timer in H. revert H. repeat break_match; try discriminate. intro H; inversion H; subst.
+    eapply J_disconnect; eauto.
+  - revert H. repeat break_match; try discriminate. intro H; inversion H; subst. eapply J_disconnect; eauto.
+Qed.
+
+(* Every API goroutine that waits for a reply has an armed response timer,
+   EXCEPT a Call in its first select while the client is connected: that one
+   waits for its reply, its context, or Done (and is released by Done). *)
+Theorem api_always_returns_model_proof : forall U c tr k w,
+  In (k, w) (s_awaiting (x_state (exec U c tr))) ->
+  (exists dl, w_timer w = Some dl) \/
+  (is_call (w_op w) = true /\ w_phase w = WWaiting /\ s_connected (x_state (exec U c tr)) = true).
+Proof.
+  intros U c tr k w Hi.
+  assert (HJ : J (x_state (exec U c tr))).
+  { apply exec_state_ind; [intros k0 w0 X; destruct X|]. intros. eapply J_step; eauto. }
+  specialize (HJ k w Hi). unfold waiter_ok in HJ.
+  destruct (w_phase w) eqn:Ep; [|left; exact HJ].
+  destruct HJ as [Hc Ht]. destruct (timed (w_op w)) eqn:Et.
+  - left. apply Ht. reflexivity.
+  - right. repeat split; auto. destruct (w_op w); simpl in *; try discriminate; reflexivity.
+Qed.
+
+(* an armed timer that is due makes the call return ErrReplyTimeout *)
+Theorem timer_returns_proof : forall U s k w dl,
+  In (k, w) (s_awaiting s) -> w_timer w = Some dl -> dl <= s_now s ->
+  (forall k2 w2, In (k2, w2) (s_awaiting s) -> w_o w2 = w_o w -> (k2, w2) = (k, w)) ->
+  exists s', step U s (TimerFire (w_o w)) = Ok s' [OReturn (w_o w) k RetTimeout] /\
+             alookup (s_awaiting s') k = None.
+Proof.
+  intros U s k w dl Hi Ht Hd Hu. simpl. unfold step_timer.
+  assert (Hw : waiter_of (s_awaiting s) (w_o w) = Some (k, w)).
+  { revert Hi Hu. generalize (s_awaiting s). induction l as [|[k0 w0] r IH]; simpl; intros Hi Hu; [destruct Hi|].
+    destruct (Nat.eqb (w_o w0) (w_o w)) eqn:E.
+    - apply Nat.eqb_eq in E. rewrite (Hu k0 w0 (or_introl eq_refl) E). reflexivity.
+    - destruct Hi as [Hi|Hi]; [inversion Hi; subst; rewrite Nat.eqb_refl in E; discriminate|].
+      apply IH; auto. }
+  rewrite Hw, Ht. apply N.leb_le in Hd. rewrite Hd. eexists. split; [reflexivity|].
+  simpl. apply aremove_lookup_same.
+Qed.
+
+(* a call issued after the client stopped returns at once, without a request *)
+Theorem later_api_returns_proof : forall U s o p,
+  s_connected s = false -> mem_nat o (s_busy s) = false ->
+  exists s' r, step U s (ApiStart o p 0) = Ok s' [OReturn o 0 r].
+Proof.
+  intros U s o p Hc Hb. simpl. unfold step_api_start. rewrite Hb.
+  destruct p; simpl; rewrite ?Hc; simpl; eauto.
+  - destruct (alookup (s_topic_sub s) topic); simpl; rewrite ?Hc; simpl; eauto.
+  - destruct (alookup (s_proc_reg s) proc); simpl; rewrite ?Hc; simpl; eauto.
+  - destruct ack; rewrite ?Hc; simpl; eauto.
+Qed.
+
+(* ---- Close -------------------------------------------------------------- *)
+
+Definition closer_inv (s : state) : Prop :=
+  (forall o dl, s_closer s = Some (o, dl) -> s_connected s = true /\ s_closed s = true) /\
+  (s_peer_closed s = true -> s_connected s = false /\ s_closed s = true).
+
+Theorem close_start_proof : forall U s o,
+  s_closed s = false ->
+  exists s' outs, step U s (CloseStart o) = Ok s' outs /\ s_closed s' = true /\
+    (if s_connected s
+     then outs = [OSend CGoodbye] /\ s_closer s' = Some (o, s_now s + 2 * cfg_rt (s_cfg s))
+     else outs = [OCloseRet o false; OPeerClosed] /\ s_peer_closed s' = true).
+Proof.
+  intros U s o Hc. simpl. unfold step_close_start. rewrite Hc. simpl.
+  destruct (s_connected s) eqn:E; simpl; rewrite ?E; eexists; eexists; (split; [reflexivity|]); simpl; auto.
+Qed.
+
+Theorem close_again_proof : forall U s o,
+  s_closed s = true -> step U s (CloseStart o) = Ok s [OCloseRet o true].
+Proof. intros U s o Hc. simpl. unfold step_close_start. rewrite Hc. reflexivity. Qed.
+
+(* Close() waiting for Done returns as soon as the router says GOODBYE/ABORT,
+   the transport ends, or its own timer (2 x ResponseTimeout) fires; then the
+   peer is closed, no invocation goroutine is left, and the only API
+   goroutines still waiting are those in the timed wait after CANCEL. *)
+Theorem close_completes_proof : forall U s o dl l,
+  s_closer s = Some (o, dl) -> s_connected s = true ->
+  ends_connection l \/ (l = CloseTimer /\ dl <= s_now s) ->
+  exists s' outs, step U s l = Ok s' outs /\ In (OCloseRet o false) outs /\ In ODone outs /\
+    s_peer_closed s' = true /\ s_closer s' = None /\ s_connected s' = false /\
+    (forall i, In i (s_invs s') -> i_outer i = false) /\
+    (forall k w, In (k, w) (s_awaiting s') -> exists e, w_phase w = WCancelWait e).
+Proof.
+  intros U s o dl l Hcl Hc Hl.
+  assert (D : forall s1 o1, disconnect s = (s1, o1) ->
+     In (OCloseRet o false) o1 /\ In ODone o1 /\ s_peer_closed s1 = true /\ s_closer s1 = None /\
+     s_connected s1 = false /\ (forall i, In i (s_invs s1) -> i_outer i = false) /\
+     (forall k w, In (k, w) (s_awaiting s1) -> exists e, w_phase w = WCancelWait e)).
+  { intros s1 o1 E. destruct (disconnect_connected _ _ _ E Hc) as (A & B & C & I & AW & P).
+    destruct (P o dl Hcl) as [P1 P2]. repeat split; auto. }
+  destruct (disconnect s) as [s1 o1] eqn:E.
+  destruct Hl as [[H|[H|H]]|[H Hd]]; subst l; simpl; unfold step_router, step_close_timer;
+    rewrite ?Hc, ?Hcl; simpl; rewrite ?E.
+  - exists s1, o1. split; [reflexivity|]. apply D. reflexivity.
+  - exists s1, o1. split; [reflexivity|]. apply D. reflexivity.
+  - exists s1, o1. split; [reflexivity|]. apply D. reflexivity.
+  - apply N.leb_le in Hd. rewrite Hd. exists s1, o1. split; [reflexivity|]. apply D. reflexivity.
+Qed.
